@@ -189,7 +189,7 @@ def run(ctx, cases=None):
         for c in cases:
             c["mult"] = tuple(c["mult"])
         res.rule = "replay"
-    from multiprocessing import Pool
+    from ..common import Pool
     with Pool(16) as pool:
         events = pool.map(make_event, cases, chunksize=50)
     fails, st = tlc.validate_sharded("TraceLayout", "TraceLayout.cfg", events, ctx.work, shard_size=max(200, len(events) // 32 + 1))
